@@ -1,4 +1,5 @@
 import FeatherModel.Lemmas.VisitRebuild
+import FeatherModel.Lemmas.VisitAccept
 
 /-!
 # C17 lemmas — replaying a tree into the tree builder reproduces it (objects and the whole class)
@@ -179,7 +180,7 @@ theorem run_lines (i : Nat) (lines : Option (List Pay)) (st : BSt) (k : CodeTree
   | none => cases st; cases k; simp at hk h0; subst hk; subst h0; simp [run_nil]
   | some h => simp [run_cons, run_nil, step, hk, h0, bind, Option.bind, pure]
 
-theorem run_locals (i : Nat) (locals : Option (List (Bool × Pay))) (st : BSt) (k : CodeTree) (hk : st.code = some k)
+theorem run_locals (i : Nat) (locals : Option (List LvPart)) (st : BSt) (k : CodeTree) (hk : st.code = some k)
     (h0 : k.locals = none) :
     run st (match locals with | some p => [Ev.codeLocals i p] | none => []) = some { st with code := some { k with locals := locals } } := by
   cases locals with
@@ -199,7 +200,7 @@ theorem run_acceptCode (st : BSt) (m : MethodTree) (i : Nat) (t : CodeTree) (hm 
         [Ev.codeEnd i])))))) := by
     unfold acceptCode
     simp only [allMask, if_true, Bool.or_self]
-    cases t.maxs <;> cases t.lines <;> cases t.locals <;> simp
+    cases t.maxs <;> cases t.lines <;> cases t.locals <;> simp [acceptLocals_all]
   rw [e0, run_cons]
   simp only [step, Option.bind]
   rw [run_append, run_maxs i t.maxs _ {} rfl rfl]
